@@ -139,10 +139,14 @@ def r12_2(ctx: Ctx) -> RuleResult:
             rr.bad(None, None, f"Query.{alias} not found", construct=f"alias {alias}", file=q.module.relpath, qualname=q.qualname)
             continue
         params = [a.arg for a in fn.node.args.args[1:]]
-        body = _strip_docstring(fn.node.body)
+        from .c11 import _shape_error
+        from .c11 import _single_return
+
+        c = _single_return(fn)
+        if c is None:
+            raise _shape_error("R12.2", fn)
         ok = False
-        if len(body) == 1 and isinstance(body[0], ast.Return) and isinstance(body[0].value, ast.Call):
-            c = body[0].value
+        if isinstance(c, ast.Call):
             if (
                 isinstance(c.func, ast.Attribute) and path_of(c.func.value) == "self" and c.func.attr == target
                 and [path_of(a) for a in c.args] == params and not c.keywords
@@ -176,10 +180,14 @@ def r12_3(ctx: Ctx) -> RuleResult:
         fn = q.methods.get(name)
         if fn is None:
             raise AnalysisError(f"Query.{name} not found")
-        body = _strip_docstring(fn.node.body)
+        from .c11 import _shape_error
+        from .c11 import _single_return
+
+        g = _single_return(fn)
+        if g is None:
+            raise _shape_error("R12.3", fn)
         ok = False
-        if len(body) == 1 and isinstance(body[0], ast.Return) and isinstance(body[0].value, (ast.GeneratorExp, ast.ListComp)):
-            g = body[0].value
+        if isinstance(g, (ast.GeneratorExp, ast.ListComp)):
             if len(g.generators) == 1 and not g.generators[0].ifs and path_of(g.generators[0].iter) == "self._it":
                 m = path_of(g.generators[0].target)
                 if m and ast.unparse(g.elt) in [f.format(m=m) for f in forms]:
